@@ -1,7 +1,7 @@
 META = {
     "level": "fault_enumeration",
     "technique": "TLA+ model of the packet layer with an attacker on the ciphertext stream (PacketLayer.tla: Flip per region, DelByte, InsByte, Drop, Replay, Swap, Cut) model-checked by TLC; every single attack (and sampled double attacks) enumerated by TLC rendered to byte edits of recorded ciphertext of every framing class and run through the real read_message; every byte position of recorded streams flipped / deleted / inserted / truncated; random multi-fault edits; all runs judged by the trace spec",
-    "text": "TLC proves on the model that with MAC/tag verification over (keys, sequence number, whole packet) the delivered messages are always an alien-free prefix of the sent ones and that nothing is delivered after the first bad packet, for all placements of <= 2 attacker actions, and that dropping the MAC check or the sequence number from the MAC breaks this; real encrypted streams (6 packets incl. a key switch, recorded from a real sender for each of the 44 framing classes: CTR/CBC/3DES x full, truncated, encrypt-then-MAC x AES-GCM x zlib) are edited - TLC-enumerated (packet, region) attacks, every byte position (flip with masks 01/80/FF, delete, insert, cut), packet drop/replay/swap and seeded multi-fault edits - and fed to a fresh real receiver; TLC checks each run: property clause = what was handed up is an unmodified prefix of what was sent; conformance clause = exactly the model's outcome",
+    "text": "TLC proves on the model that with MAC/tag verification over (keys, sequence number, whole packet) the delivered messages are always an alien-free prefix of the sent ones and that nothing is delivered after the first bad packet, for all placements of <= 2 attacker actions, and that dropping the MAC check or the sequence number from the MAC breaks this; real encrypted streams (6 packets incl. a key switch, recorded from a real sender for each of the 44 framing classes: CTR/CBC/3DES x full, truncated, encrypt-then-MAC x AES-GCM x zlib) are edited - TLC-enumerated (packet, region) attacks, every byte position (flip with mask 01, 80 or FF - all three for every fifth class -, delete, insert, cut), packet drop/replay/swap and seeded multi-fault edits - and fed to a fresh real receiver; TLC checks each run: property clause = what was handed up is an unmodified prefix of what was sent; conformance clause = exactly the model's outcome",
     "note": "trusted: TLC, the in-memory socket, message identification by byte equality, the independent packet reader used only to name the region an edited byte lies in; edits of the plaintext first NEWKEYS are outside 'once encryption is active'; how the receiver fails (exception class) is recorded but not judged here (C38)",
 }
 import collections
@@ -174,7 +174,7 @@ def run(c):
         for cls, members in classes.items():
             mine = [x for x in keys if x[1] == cls[4]]
             if k > 1:
-                mine = rnd.sample(mine, min(len(mine), 400))
+                mine = rnd.sample(mine, min(len(mine), 200))
             recs = {}
             if c.quick:       # one strict-kex setting per class (alternating), both in the thorough tier
                 want = (list(classes).index(cls) + c.seed) % 2 == 0
@@ -203,7 +203,7 @@ def run(c):
         for i, p in enumerate(rec.pkts, 1):
             for off in range(len(p.raw)):
                 reg = semantic_region(rec, p, off)
-                masks = MASKS if not c.quick else (MASKS[(off + i) % 3],)
+                masks = MASKS if (not c.quick and chosen.index(cls) % 5 == 0) else (MASKS[(off + i) % 3],)
                 for mask in masks:
                     R.run(rec, [("Flip", i, reg)], [("FlipAt", i, (off, mask))], "every-byte")
                 R.run(rec, [("DelByte", i, "")], [("DelAt", i, off)], "every-byte")
@@ -221,7 +221,7 @@ def run(c):
         R.run(rec, [], [], "control")
 
     # ---- TV 2: seeded multi-fault edits over all suites
-    n_multi = 300 if c.quick else 5000
+    n_multi = 300 if c.quick else 3000
     all_suites = P.suites()
     for k in range(n_multi):
         suite = all_suites[(k * 7 + c.seed) % len(all_suites)]
